@@ -362,6 +362,29 @@ def rule_envshadow(ctx, prop: str) -> RuleResult:
                             f"{f.qualname}: {how} — two calls of one sub-procedure in a block bind the same formal twice; the second call's accesses are attributed to the "
                             f"first call's window, so a race (or an out-of-bounds / non-commuting access) of the second call is judged on the wrong locations")
                 )
+    # the join of two environments knows the configuration names of BOTH (every return path of
+    # AEnv.__add__, including the "compression" shortcut)
+    c_ = m.cls("AEnv")
+    add = c_.methods.get("__add__") if c_ else None
+    if add is None:
+        raise AnalysisError("anchor vanished: AEnv.__add__")
+    ps = [p for p in add.params()]
+    stores = [n for n in add.body_nodes() if isinstance(n, ast.Assign) and any(isinstance(t, ast.Attribute) and t.attr == "names" for t in n.targets)]
+    if not stores:
+        raise AnalysisError("anchor vanished: `result.names = ...` in AEnv.__add__")
+    for n in stores:
+        res.instances += 1
+        res.nontrivial += 1
+        txt = ast.unparse(n.value)
+        ok = all(f"{p}.names" in txt for p in ps[:2])
+        res.ob(ok)
+        res.sample(f"AEnv.__add__: `{ast.unparse(n)[:70]}` keeps the names of both operands: {ok}")
+        if not ok:
+            res.add(
+                Finding("ENVSHADOW", NE, n.lineno, "AEnv.__add__", "join-names",
+                        f"`{ast.unparse(n)[:80]}`: the joined environment forgets the configuration names of one operand; at the enclosing if/for the forgotten field counts as unchanged by the "
+                        f"block, so delete_config / write_config accept a change of a value that is read later and report an empty set of modified fields")
+            )
     if n_folds < 3:
         raise AnalysisError(f"ENVSHADOW: expected >= 3 folds over `.bindings` in new_eff.py, found {n_folds}")
     res.floor = 3
